@@ -192,6 +192,8 @@ def prepare_call(call):
         prep["obj"] = gen.build(call["obj"])
     if call["op"] == "dump_many":
         prep["frames"] = gen.all_frames(call["src"])[:4]
+    if call.get("pause"):
+        prep["pause_prep"] = prepare_call(call["pause"])  # outside the seams, like all argument preparation
     if "inline" in call:
         prep["data"] = call["inline"].encode()
     elif "file" in call:
@@ -217,7 +219,17 @@ def exec_call(call, prep, disk, prefix):
             d = iodata.load_one(path, fmt=call.get("fmt"))
             rec = ["ok", canon.iodata_digest(d)]
         elif op == "load_many":
-            ds = list(iodata.load_many(path, fmt=call.get("fmt")))
+            if call.get("pause"):
+                # take one frame, do something else with the library, then resume the iterator
+                it = iodata.load_many(path, fmt=call.get("fmt"))
+                ds = []
+                for d in it:
+                    ds.append(d)
+                    if len(ds) == 1:
+                        inner = call["pause"]
+                        exec_call(inner, prep["pause_prep"], disk, prefix + "inner/")
+            else:
+                ds = list(iodata.load_many(path, fmt=call.get("fmt")))
             rec = ["ok", [canon.iodata_digest(d) for d in ds]]
         if call.get("faults") and "out" in call:
             disk.plans[prefix + call["out"]] = seams.WritePlan.from_faults(call["faults"])
@@ -560,10 +572,21 @@ def plan(tier, seed, args):
     return tasks
 
 
+def _with_pauses(rng, calls):
+    """Some load_many calls are consumed with a pause after the first frame, during which another pool call runs
+    (same reference outcome: the frames must not depend on what happens between two next() calls)."""
+    for c in calls:
+        if c["op"] == "load_many" and not c.get("pause") and rng.random() < 0.3:
+            inner = copy.deepcopy(rng.choice(POOL))
+            inner.pop("pause", None)
+            c["pause"] = inner
+    return calls
+
+
 def gen_trace(rng):
     if rng.random() < 0.45:
         n = rng.randint(5, 40)
-        return {"mode": "history", "calls": [copy.deepcopy(rng.choice(POOL)) for _ in range(n)]}
+        return {"mode": "history", "calls": _with_pauses(rng, [copy.deepcopy(rng.choice(POOL)) for _ in range(n)])}
     nthreads = rng.choice([2, 2, 3, 3, 4, 6, 8, 16])
     # swarm: most runs draw all clients' calls from a small random subset of the pool, so that concurrent
     # threads are likely to be inside the same code paths (where races on shared state live)
